@@ -17,6 +17,10 @@ the real code on every run; what no input/output comparison can show *by itself*
 * `loadReturns`             - every `return` of `_load` is `template` (the collection entry or the object just
                               constructed and stored under `uri`) or `self._check(uri, template)`.
 
+* `tempBesideModule`        - `_compile_module_file` creates its temporary file with `dir=os.path.dirname(outputpath)`
+                              (every `tempfile.*` call in it carries that `dir=`), so that nothing - not even a
+                              temporary file - is created outside the directory of the module file.
+
 A shape that is not recognised makes the flag `false` (the named obligation in Props/C09.lean then fails); only a
 missing class/function is a RegenError.
 """
@@ -122,6 +126,12 @@ def gen(repo) -> str:
                     and any(_src(t) == "self._collection[uri]" for t in n.targets))):
             load_ok = False
 
+    cmf = find_func(tt.body, "_compile_module_file", "mako/template.py")
+    tcalls = [c for c in ast.walk(cmf) if isinstance(c, ast.Call) and isinstance(c.func, ast.Attribute)
+              and isinstance(c.func.value, ast.Name) and c.func.value.id == "tempfile"]
+    temp_ok = bool(tcalls) and all(any(k.arg == "dir" and _src(k.value) == "os.path.dirname(outputpath)"
+                                       for k in c.keywords) for c in tcalls)
+
     return (HEADER % "mako/template.py (Template.__init__), mako/lookup.py (TemplateCollection.has_template, TemplateLookup)"
             + "namespace MakoModel.Generated.PathCfg\n\n"
             + "/-- `if u_norm.startswith(\"..\"): raise TemplateLookupException` is one top-level statement of `Template.__init__` -/\n"
@@ -136,4 +146,6 @@ def gen(repo) -> str:
             + "def getTemplateReturns : Bool := %s\n\n" % b(get_ok)
             + "/-- `_load` only returns the collection entry / the template it constructed and stored for `uri` (%d returns) -/\n" % len(rl)
             + "def loadReturns : Bool := %s\n\n" % b(load_ok)
+            + "/-- every temporary file of `_compile_module_file` is created in the module file's own directory (%d calls) -/\n" % len(tcalls)
+            + "def tempBesideModule : Bool := %s\n\n" % b(temp_ok)
             + "end MakoModel.Generated.PathCfg\n")
